@@ -57,7 +57,7 @@ var c03Undecided = []TV{{K: "nil*Item"}, {K: "nilslice"}, {K: "nilmap"},
 var c03UniformOnly = []TV{{K: "string", S: "false"}, {K: "string", S: "true"}, {K: "string", S: "FALSE"}, {K: "*bool"}}
 
 // incmember / shortmember: the chain members are include tags / shorthand component tags themselves (a conditional include)
-var c03Placements = []string{"top", "nested", "for", "template", "ws", "comment", "adjacent", "beforefor", "table", "component", "slot", "layout", "incmember", "shortmember", "slotmember", "tvhtml", "elsefor"}
+var c03Placements = []string{"top", "nested", "for", "template", "ws", "comment", "adjacent", "beforefor", "table", "component", "slot", "layout", "incmember", "shortmember", "slotmember", "tvhtml", "elsefor", "afteremptyfor"}
 
 type c03 struct{}
 
@@ -74,7 +74,7 @@ func init() {
 
 func (p *c03) ID() string { return "C03" }
 func (p *c03) Rule() string {
-	return "chain part: every shape v-if + k x v-else-if (k<=2 quick, k<=3 thorough) with/without v-else x every truth assignment x 17 placements (the v-else-if / v-else members being loops themselves, the chain members being include tags / shorthand component tags / <slot> elements of a component / <template v-html> tags themselves, top, nested, inside v-for with per-item conditions, on <template>, whitespace/comment between members, two adjacent chains, chain directly before a v-for sibling, inside table rows, inside an included component, inside slot content, inside a layout) x condition form (bare, negated) x a rotation through all Go value kinds realising each truth value; lazy part: every chain of 1-3 v-else-if (with/without v-else) x every position of the first truthy member that is followed by a v-else-if x later conditions that call a function returning an error / a counting function x {top, v-for, <template>, component}: the taken branch is rendered and the render does not fail; uniform part: every value of the truthy/falsy/undecided catalogue (all numeric widths, strings incl. \"0\" and \"false\", nil, missing, pointers, slices, maps, structs) x {v, o.v, v as the item of a loop whose variable shadows a truthy outer v, a variable named title / json like a built-in template function, a struct field by JSON tag, a dashed map key, a numeric dotted step} read in v-if, v-else-if, v-show, :attr, :class object and their negations in v-if/v-else-if/v-show; non-trivial = every generated case (each has a condition decided by data); distinct by (shape, placement, form, values)"
+	return "chain part: every shape v-if + k x v-else-if (k<=2 quick, k<=3 thorough) with/without v-else x every truth assignment x 18 placements (the chain directly after a loop that produces nothing, the v-else-if / v-else members being loops themselves, the chain members being include tags / shorthand component tags / <slot> elements of a component / <template v-html> tags themselves, top, nested, inside v-for with per-item conditions, on <template>, whitespace/comment between members, two adjacent chains, chain directly before a v-for sibling, inside table rows, inside an included component, inside slot content, inside a layout) x condition form (bare, negated) x a rotation through all Go value kinds realising each truth value; lazy part: every chain of 1-3 v-else-if (with/without v-else) x every position of the first truthy member that is followed by a v-else-if x later conditions that call a function returning an error / a counting function x {top, v-for, <template>, component}: the taken branch is rendered and the render does not fail; uniform part: every value of the truthy/falsy/undecided catalogue (all numeric widths, strings incl. \"0\" and \"false\", nil, missing, pointers, slices, maps, structs) x {v, o.v, v as the item of a loop whose variable shadows a truthy outer v, a variable named title / json like a built-in template function, a struct field by JSON tag, a dashed map key, a numeric dotted step} read in v-if, v-else-if, v-show, :attr, :class object and their negations in v-if/v-else-if/v-show; non-trivial = every generated case (each has a condition decided by data); distinct by (shape, placement, form, values)"
 }
 
 func (p *c03) maxK(ctx core.Ctx) int { return ctx.Pick(2, 3) }
@@ -241,7 +241,7 @@ func (p *c03) Exec(ctx core.Ctx, cc any) core.Obs {
 	withComponents := false
 	tag := "p"
 	switch c.Placement {
-	case "top", "nested", "ws", "comment", "template", "beforefor", "table", "memberfor", "component", "slot", "layout", "incmember", "shortmember", "slotmember", "tvhtml", "elsefor":
+	case "top", "nested", "ws", "comment", "template", "beforefor", "table", "memberfor", "component", "slot", "layout", "incmember", "shortmember", "slotmember", "tvhtml", "elsefor", "afteremptyfor":
 		c03Data(c.Vals, "c", data)
 		sep := ""
 		switch c.Placement {
@@ -275,6 +275,13 @@ func (p *c03) Exec(ctx core.Ctx, cc any) core.Obs {
 		pre, post := `<p data-m="pre">a</p>T1 `, ` T2<p data-m="post">z</p>`
 		want = append([]string{"pre"}, exp...)
 		switch c.Placement {
+		case "afteremptyfor":
+			// the chain directly follows a loop that produces nothing: the chain is a chain of its own, not the loop's else
+			data["none"] = []any{}
+			pre = `<p data-m="pre">a</p>T1 <p v-for="n in none" data-m="loop">{{ n }}</p>`
+			if c.Form == "not" {
+				pre += "\n  <!-- c -->"
+			}
 		case "beforefor":
 			data["items"] = []any{1, 2}
 			post = `<p v-for="n in items" data-m="loop">{{ n }}</p>` + post
